@@ -379,7 +379,7 @@ def run_property(spec, tier='quick', seed=0, root='/repo', jobs=None):
         status = 3
     wall = time.time() - t0
     ev = {
-        'property_id': pid, 'tier': tier, 'seed': seed, 'level': 'proof',
+        'property_id': pid, 'tier': tier, 'seed': seed, 'level': getattr(spec, 'level', 'proof'),
         'coverage': {
             'obligations': obligations, 'discharged': discharged,
             'checker_cmd': f'./check {pid} --tier {tier}',
@@ -391,6 +391,8 @@ def run_property(spec, tier='quick', seed=0, root='/repo', jobs=None):
             'known_findings_reported': [k.get('what') for k, _ in known_hit],
             'bounded_standins': [x.get('bounded') for x in extra if x.get('bounded')] + [dict(v, unit=k) for k, v in bstats.items()],
             'undecided': [f'{n}: {w}' for n, w in undecided],
+            **{k: v for x in extra for k, v in (x.get('coverage') or {}).items()},
+            **(getattr(spec, 'coverage_extra', None) or {}),
             'notes': spec.notes,
         },
         'assumptions': spec.assumptions,
